@@ -46,7 +46,8 @@ func (x *c03Env) buildReach() {
 			return true
 		})
 	}
-	visit(&c03Fn{name: x.openFi.Name + "$input", pk: x.pk, body: x.lit.Body})
+	root := x.chain[0]
+	visit(&c03Fn{name: root.name, pk: x.pk, body: root.body, fi: root.fi})
 	sort.SliceStable(x.reach, func(i, j int) bool { return x.reach[i].name < x.reach[j].name })
 }
 
@@ -191,7 +192,7 @@ func (x *c03Env) ruleB() {
 					if cc, ok := cur.(*ast.CommClause); ok {
 						if cc.Comm != nil && cc.Comm.Pos() <= s.Pos() && s.End() <= cc.Comm.End() {
 							if sel, _ := par[par[cc]].(*ast.SelectStmt); sel != nil {
-								if f.fi == nil && x.isLoopSelect(sel) {
+								if f.body == x.loop.body && x.isLoopSelect(sel) {
 									return true // the loop's own wait
 								}
 								if c03SelectEscape(info, f.body, sel) != "" {
@@ -217,7 +218,7 @@ func (x *c03Env) ruleB() {
 		})
 	}
 	if nRecv == 0 {
-		c.okTrivial("C03.b", "input context/no blocking receive besides the loop select", x.lit.Pos(), "no receive expression outside a select with default/timer in %d functions", len(x.reach))
+		c.okTrivial("C03.b", "input context/no blocking receive besides the loop select", x.loop.pos, "no receive expression outside a select with default/timer in %d functions", len(x.reach))
 	}
 }
 
@@ -231,7 +232,7 @@ func (x *c03Env) isLoopSelect(sel *ast.SelectStmt) bool {
 	if !ok {
 		return false
 	}
-	return x.par[fs] == ast.Node(x.lit.Body)
+	return x.par[fs] == ast.Node(x.loop.body)
 }
 
 // ---- C03.c
@@ -839,91 +840,120 @@ func (x *c03Env) singleDefs(g *FG) map[types.Object]ast.Expr {
 
 func (x *c03Env) ruleE() {
 	c := x.c
-	name := x.openFi.Name + "$input"
-	// deferred recover → Close (→ re-panic)
-	okDefer, why := false, "no deferred closure calling recover()"
-	for _, s := range x.lit.Body.List {
-		ds, ok := s.(*ast.DeferStmt)
+	name := x.loop.name
+	isRecover := func(n ast.Node) bool {
+		call, ok := n.(*ast.CallExpr)
 		if !ok {
-			continue
+			return false
 		}
-		dl, ok := ds.Call.Fun.(*ast.FuncLit)
+		id, ok := unparen(call.Fun).(*ast.Ident)
 		if !ok {
-			continue
+			return false
 		}
-		isRecover := func(n ast.Node) bool {
-			call, ok := n.(*ast.CallExpr)
-			if !ok {
-				return false
+		b, ok := x.info.Uses[id].(*types.Builtin)
+		return ok && b.Name() == "recover"
+	}
+	// deferred recover → Close (→ re-panic): a deferred closure, or a deferred call of a same-package function
+	// that calls recover() itself, in the loop function or in a wrapper between the `go` statement and it
+	okDefer, why := false, "no deferred function calling recover()"
+	installed := false
+	for ci, b := range x.chain {
+		// the statement of this body that leads to the loop: the loop itself, or the call of the next body
+		var lead ast.Node
+		if ci+1 < len(x.chain) {
+			nb := x.chain[ci+1]
+			for _, s := range b.body.List {
+				if s.Pos() <= nb.pos && nb.pos <= s.End() && nb.lit != nil {
+					lead = s
+				}
+				if nb.fi != nil && containsNode(s, func(m ast.Node) bool {
+					call, ok := m.(*ast.CallExpr)
+					return ok && calleeOf(x.info, call) == nb.fi.Obj
+				}) {
+					lead = s
+				}
 			}
-			id, ok := unparen(call.Fun).(*ast.Ident)
-			if !ok {
-				return false
-			}
-			b, ok := x.info.Uses[id].(*types.Builtin)
-			return ok && b.Name() == "recover"
-		}
-		if !containsNode(dl.Body, isRecover) {
-			continue
-		}
-		dg := c.P.GraphOfLit(x.pk, name+"$recover", dl)
-		closes := dg.Calls(func(fn *types.Func, _ *ast.CallExpr) bool { return fn != nil && repoName(fn) == c03Close })
-		if len(closes) == 0 {
-			why = "the recover handler does not call Close"
-			continue
-		}
-		okDefer = true
-		for _, cl := range closes {
-			if !dg.MustPrecede(isRecover, cl.Loc) {
-				okDefer, why = false, "Close is reachable in the handler before recover() was consulted"
-			}
-		}
-		// Close must be on the panic path: guarded by recover() != nil
-		nonNil := false
-		for _, cl := range closes {
-			for _, a := range dg.FactsAt(cl.Loc) {
-				if a.Kind == "nil" && !a.Pol {
-					nonNil = true
+		} else {
+			for _, s := range b.body.List {
+				if fs, ok := s.(*ast.ForStmt); ok {
+					lead = fs
 				}
 			}
 		}
-		if okDefer && !nonNil {
-			okDefer, why = false, "Close in the handler is not conditioned on a non-nil recover() result"
+		for _, s := range b.body.List {
+			ds, ok := s.(*ast.DeferStmt)
+			if !ok {
+				continue
+			}
+			var hbody *ast.BlockStmt
+			var dg *FG
+			if dl, ok := ds.Call.Fun.(*ast.FuncLit); ok {
+				hbody = dl.Body
+				dg = c.P.GraphOfLit(x.pk, name+"$recover", dl)
+			} else if fn := calleeOf(x.info, ds.Call); fn != nil {
+				if hfi := c.P.FuncOfObj(fn); hfi != nil && hfi.Pkg == x.pk && hfi.Decl.Body != nil {
+					hbody = hfi.Decl.Body
+					dg = c.P.Graph(hfi)
+				}
+			}
+			if hbody == nil || !containsNode(hbody, isRecover) {
+				continue
+			}
+			closes := dg.Calls(func(fn *types.Func, _ *ast.CallExpr) bool { return fn != nil && repoName(fn) == c03Close })
+			if len(closes) == 0 {
+				why = "the recover handler does not call Close"
+				continue
+			}
+			good := true
+			for _, cl := range closes {
+				if !dg.MustPrecede(isRecover, cl.Loc) {
+					good, why = false, "Close is reachable in the handler before recover() was consulted"
+				}
+			}
+			// Close must be on the panic path: guarded by recover() != nil
+			nonNil := false
+			for _, cl := range closes {
+				for _, a := range dg.FactsAt(cl.Loc) {
+					if a.Kind == "nil" && !a.Pol {
+						nonNil = true
+					}
+				}
+			}
+			if good && !nonNil {
+				good, why = false, "Close in the handler is not conditioned on a non-nil recover() result"
+			}
+			if good {
+				okDefer = true
+				if lead != nil && ds.Pos() < lead.Pos() {
+					installed = true
+				}
+			}
 		}
 	}
 	// the defer must be installed before the loop
-	c.check(okDefer, "C03.e", name+"/deferred recover() restores the terminal via Close", x.lit.Pos(),
+	c.check(okDefer, "C03.e", name+"/deferred recover() restores the terminal via Close", x.loop.pos,
 		"a deferred closure calls recover() and, when it returns non-nil, Close", "the input goroutine has no recover-and-restore: "+why)
 
 	// loop shape
 	var loop *ast.ForStmt
-	for _, s := range x.lit.Body.List {
+	for _, s := range x.loop.body.List {
 		if fs, ok := s.(*ast.ForStmt); ok {
 			loop = fs
 		}
 	}
 	if loop == nil {
-		c.undecided("C03.e", name+"/loop", x.lit.Pos(), "the goroutine body has no top-level for loop")
+		c.undecided("C03.e", name+"/loop", x.loop.pos, "the goroutine body has no top-level for loop")
 		return
 	}
 	c.check(loop.Cond == nil, "C03.e", name+"/loop is unconditional", loop.Pos(),
 		"for { … }", "the input loop has a condition: it can stop consuming input")
-	var firstDefer, loopIdx = -1, -1
-	for i, s := range x.lit.Body.List {
-		if _, ok := s.(*ast.DeferStmt); ok && firstDefer < 0 {
-			firstDefer = i
-		}
-		if s == ast.Stmt(loop) {
-			loopIdx = i
-		}
-	}
-	c.check(firstDefer >= 0 && firstDefer < loopIdx, "C03.e", name+"/recover installed before the loop", loop.Pos(), "defer precedes the loop", "the recover handler is not installed before the loop starts")
+	c.check(installed, "C03.e", name+"/recover installed before the loop", loop.Pos(), "the defer precedes the loop (or the call that leads to it)", "the recover handler is not installed before the loop starts")
 
 	// "this point is reached only for an EOF sequence / only on termination", however it is written:
 	// a type-switch clause listing only EOF, the then-branch of `if _, ok := seq.(ansi.EOF); ok`, the code
 	// after `if !ok { …; continue }`, or the chSigKill / chQuit arm of the select.
 	eofT := modPath + "/ansi.EOF"
-	lg := c.P.GraphOfLit(x.pk, name, x.lit)
+	lg := x.bodyGraph(x.loop)
 	isEOFOk := func(e ast.Expr) bool {
 		id, ok := e.(*ast.Ident)
 		if !ok {
@@ -934,7 +964,7 @@ func (x *c03Env) ruleE() {
 			return false
 		}
 		nAssign, fromEOF := 0, false
-		ast.Inspect(x.lit.Body, func(n ast.Node) bool {
+		ast.Inspect(x.loop.body, func(n ast.Node) bool {
 			as, ok := n.(*ast.AssignStmt)
 			if !ok {
 				return true
